@@ -144,6 +144,7 @@ fn judge_stream(parts: &[(&[u8], &[u8])], tail: &[u8], loc: &mut Local) {
 }
 
 pub fn run(ctx: &Ctx) {
+    ctx.enable_trace_pass(ctx.tier.pick(20000u64, 200000u64));
     ctx.set_rule("search: case = byte string, oracle = naive first-occurrence scan; parse: case = (junk not containing the pattern, message with storage header, suffix), oracle = parsing the message alone; streams junk/message interleavings recovered in order; non-trivial = the pattern occurs (search) / junk is non-empty (parse)");
     // search: all strings over the pattern alphabet
     let fam = strings_over(&SEARCH_ALPHA, ctx.tier.pick(8, 10), "search");
@@ -214,6 +215,83 @@ pub fn run(ctx: &Ctx) {
                 }
             }
         }).chunk(16));
+    }
+    // junk x storage-header content: the 12 bytes behind the pattern (time, ECU id) are content too
+    {
+        let junks: Vec<Vec<u8>> = vec![b"X".to_vec(), vec![0u8; 5], b"DLT".to_vec(), vec![0xFF; 17]];
+        // ECU ids: every byte value in the first position, and multi-byte / control / blank ids
+        let mut ecus: Vec<Vec<u8>> = (0..=255u8).map(|b| vec![b, b'C', b'U', 0]).collect();
+        for t in ["é1", "€", "😀", "MÜ1", "\u{1}\u{2}", "    ", "\t\n", "ÿ", "a\u{FEFF}"] {
+            let mut v = t.as_bytes().to_vec();
+            v.truncate(4);
+            v.resize(4, 0);
+            ecus.push(v);
+        }
+        let times: Vec<[u8; 8]> = vec![[0; 8], [0xFF; 8], *b"DLT\x01DLT\x01", [1, 2, 3, 4, 0x40, 0x42, 0x0F, 0]];
+        let msg = encode(&seed_messages(Tier::Quick)[1]).0;
+        let sp = Space::new(&[junks.len(), ecus.len(), times.len()]);
+        let s2 = sp.clone();
+        let (junks, ecus, times, msg) = (&junks, &ecus, &times, &msg);
+        ctx.run_family(Family::new("c06.parse.junk_header_content", sp.size(), format!("4 junk strings x {} storage-header ECU ids (every byte value in the first position; multi-byte, control, blank, BOM ids) x 4 timestamps (zeros, FF, the pattern itself twice, ordinary) in front of a message: same message and remainder as without junk, also under the filter configurations", ecus.len()), move |i, loc| {
+            let c = s2.coords(i);
+            let mut m = b"DLT\x01".to_vec();
+            m.extend_from_slice(&times[c[2]]);
+            m.extend_from_slice(&ecus[c[1]]);
+            m.extend_from_slice(msg);
+            // a timestamp that contains the pattern makes the first occurrence ambiguous only inside
+            // the header itself (offset 4), never before it: junk ++ m still starts its first pattern at |junk|
+            judge_junk(&junks[c[0]], &m, b"tail", loc);
+        }));
+    }
+    // repeated history: r identical calls with the pattern at offset g, then an input whose first
+    // pattern is at k < g and which has another pattern exactly at g (offset hints, warmed caches)
+    {
+        let m = {
+            let mut x = seed_messages(Tier::Quick)[0].clone();
+            x.storage = Some(storage(1, 2, "ST"));
+            encode(&x).0
+        };
+        let ml = m.len();
+        let reps = [1usize, 2, 8, 9, 33];
+        let gmax = ctx.tier.pick(96usize, 200usize);
+        let sp = Space::new(&[gmax + 1, reps.len()]);
+        let s2 = sp.clone();
+        let m = &m;
+        ctx.run_family(Family::new("c06.parse.repeated_history", sp.size(), format!("for every g in 0..={} and r in {:?}: r parses of junk(g) ++ message, then junk(k) ++ message A ++ junk ++ message B for EVERY k < g such that B's pattern sits exactly at offset g (and for k = g): the first message recovered must be A", gmax, reps), move |i, loc| {
+            let c = s2.coords(i);
+            let (g, r) = (c[0], reps[c[1]]);
+            let mut warm = vec![b'x'; g];
+            warm.extend_from_slice(m);
+            for _ in 0..r {
+                let _ = catch(|| dlt_message(&warm, None, true).map(|_| ()));
+            }
+            loc.evals += 1;
+            loc.traces += 1;
+            loc.state(i, true);
+            for k in 0..=g {
+                // A at k; B's pattern at g requires g >= k + ml (junk of g - k - ml bytes between), or k == g
+                if k != g && k + ml > g {
+                    continue;
+                }
+                let mut b = vec![b'y'; k];
+                let mut a = m.clone();
+                a[5] = 0xA5; // make A distinguishable from the warm-up message and from B
+                b.extend_from_slice(&a);
+                if k != g {
+                    b.extend(std::iter::repeat(b'z').take(g - k - ml));
+                    b.extend_from_slice(m);
+                }
+                loc.transitions += 1;
+                match catch(|| dlt_message(&b, None, true).map(|(rest, pm)| (rest.len(), pm))) {
+                    Ok(Ok((rest, ParsedMessage::Item(x)))) if x.as_bytes() == a && rest == b.len() - k - ml => loc.outcome("first message recovered"),
+                    other => {
+                        loc.outcome("history changes the result");
+                        loc.violation("previous calls influence where the storage header is found", format!("after {} parses with the pattern at offset {}, an input with its first pattern at offset {} (and another at {}) gave {:?}", r, g, k, g, other.map(|r| r.map(|(n, pm)| (n, format!("{:?}", pm).chars().take(70).collect::<String>())))), json!({"g": g, "k": k, "r": r}));
+                        return;
+                    }
+                }
+            }
+        }));
     }
     // parse: junk x messages x suffixes
     {
